@@ -37,10 +37,13 @@ func init() {
 		// NewWriteBatchAt(6): plain Set/Delete take the batch timestamp, SetEntryAt/DeleteAt their own
 		var mixed []c27Op
 		mixed = append(mixed, plain...)
-		for _, ts := range []uint64{5, 7} {
+		for _, ts := range []uint64{5, 6, 7} { // 6 is the batch's own timestamp: an explicit version equal to the implicit one
 			mixed = append(mixed, c27Op{"setat", "x", ts}, c27Op{"delat", "x", ts})
 		}
-		modes := []mode{{"normal", plain}, {"at6", mixed}, {"managed", managed}}
+		// NewManagedWriteBatch with calls that carry no version next to calls that do: Flush may refuse
+		// them, but when it returns nil every call must be reflected
+		mplain := []c27Op{{"set", "x", 0}, {"del", "x", 0}, {"set", "y", 0}, {"setat", "x", 5}, {"setat", "y", 7}, {"delat", "x", 7}}
+		modes := []mode{{"normal", plain}, {"at6", mixed}, {"managed", managed}, {"managedplain", mplain}}
 		for _, m := range modes {
 			for _, split := range []int{1, 2, 3, 100} {
 				m, split := m, split
@@ -90,6 +93,9 @@ func init() {
 								err = wb.DeleteAt([]byte(op.key), op.ts)
 							}
 							if err != nil {
+								if m.name == "managedplain" {
+									return "", "" // refused (the error comes from an internal commit of the split batch)
+								}
 								return "batch-op-error", fmt.Sprintf("%v: %v", op, err)
 							}
 							if model[op.key] == nil {
@@ -99,7 +105,36 @@ func init() {
 							order[op.key] = append(order[op.key], ver)
 						}
 						if err := wb.Flush(); err != nil {
+							if m.name == "managedplain" {
+								return "", "" // refused: nothing is promised
+							}
 							return "batch-flush-error", err.Error()
+						}
+						if m.name == "managedplain" {
+							// Flush returned nil: a key whose last call carried no version must show that call
+							// to a reader at the largest timestamp
+							txn := db.NewTransactionAt(1<<62, false)
+							defer txn.Discard()
+							got := readKeys(txn, []string{"x", "y"})
+							for _, k := range []string{"x", "y"} {
+								last := -1
+								for i, op := range seq {
+									if op.key == k {
+										last = i
+									}
+								}
+								if last < 0 || seq[last].ts != 0 {
+									continue
+								}
+								want := fmt.Sprintf("v%d", last)
+								if seq[last].kind == "del" {
+									want = "<nil>"
+								}
+								if got[k].Val != want {
+									return "batch-call-lost", fmt.Sprintf("managed batch, ops %v split every %d: Flush returned nil, but the last call for %s (%s without a version) is not reflected: a reader at the largest timestamp sees %q, want %q", seq, split, k, seq[last].kind, got[k].Val, want)
+								}
+							}
+							return "", ""
 						}
 						read := func(ts uint64) map[string]readObs {
 							var txn *Txn
